@@ -479,7 +479,7 @@ func c25Death(total *WorkerResult, from, to, code int, tail, logf string) {
 }
 
 func init() {
-	Register(&CheckDef{ID: "C25race", Level: "exploration", Quick: 14, Thorough: 280, Binary: "vchk.race", Batch: 1, WatchdogS: 1500,
+	Register(&CheckDef{ID: "C25race", Level: "exploration", Quick: 8, Thorough: 280, Binary: "vchk.race", Batch: 1, WatchdogS: 1500,
 		Env:          []string{"GORACE=halt_on_error=0 exitcode=0 log_path={TMP}/race"},
 		Run:          func(ctx *WorkCtx, idx int) { c25Run(ctx, idx, true) },
 		OnChildDeath: c25Death})
